@@ -172,6 +172,8 @@ def run(ctx):
     tier = ctx["tier"]
     quick = tier == "quick"
     res = Result("C14")
+    import pycode  # translator validation: generated Lean definitions vs the real functions (harness/pycode.py)
+    pycode.check(res, random.Random(ctx["seed"] * 7919 + 77), ctx["tier"], ["frame", "reader"])
     res.rule = ("noise (uniform, delimiter-dense, header-shaped incl. length-boundary runts) optionally followed by runs of a "
                 "valid frame of every kind; each stream read up front and lazily in random chunks; producer loop run on a real "
                 "AsyncProtocol. distinct = distinct byte streams; non-trivial = noise containing >= 1 start delimiter")
